@@ -384,6 +384,33 @@ pub fn c04(em: &mut Emit, thorough: bool, seed: u64) {
             }
         }
     }
+    // a modification time in the future (clock skew): the date conditions are still evaluated
+    // against the entity's modification time, also for dates between now and that time
+    {
+        let now = std::time::SystemTime::now().duration_since(UNIX_EPOCH).unwrap().as_secs();
+        let m = now + 7200;
+        let fdates: [Option<u64>; 6] = [None, Some(now - 3600), Some(now + 3600), Some(m - 1), Some(m), Some(m + 1)];
+        for et in &etags {
+            for nanos in [0u32, 250_000_000] {
+                let mut e = HEntity::new(10);
+                e.etag = et.as_ref().map(|t| t.render());
+                e.mtime = Some(UNIX_EPOCH + Duration::new(m, nanos));
+                for ius in &fdates {
+                    for ims in &fdates {
+                        for method in ["GET", "HEAD"] {
+                            let mut q = HReq::get();
+                            q.method = method.into();
+                            q.ius = ius.map_or(DateH::Absent, DateH::Secs);
+                            q.ims = ims.map_or(DateH::Absent, DateH::Secs);
+                            let o = observe_serve(&q, &e);
+                            let p = c04_pred(et.as_ref(), Some(m), &TagHdr::Absent, &TagHdr::Absent, *ius, *ims, &o);
+                            em.case(&serve_line(&q, &e, o.now), &o.show(), &p, &format!("future-mtime:{}", o.status));
+                        }
+                    }
+                }
+            }
+        }
+    }
     // random tag lists (up to 8 tags, random opaque bytes, OWS) and the malformed stream
     let mut rng = Rng::new(seed ^ 0xC04);
     let n = if thorough { 300_000 } else { 10_000 };
@@ -771,6 +798,8 @@ pub fn c14(em: &mut Emit, _thorough: bool, _seed: u64) {
             ("x-ent-a".into(), b"1".to_vec()),
             ("content-language".into(), b"en".to_vec()),
             ("x-ent-a".into(), b"2".to_vec()),
+            // what practically every real entity supplies
+            ("content-type".into(), b"text/plain; charset=utf-8".to_vec()),
         ],
     ];
     // (name, Range, method, entity length, send the entity's own ETag in If-Range)
@@ -859,6 +888,26 @@ pub fn c14(em: &mut Emit, _thorough: bool, _seed: u64) {
                         }
                         if forbid_ent && has {
                             fail(format!("entity header {} present on {}", k, o1.status));
+                        }
+                    }
+                    // ... and nothing else: beyond what `serve` itself sets, every header line of
+                    // the response is one this entity supplied (each as often as supplied)
+                    {
+                        let mut own = vec!["accept-ranges", "etag", "date", "last-modified", "content-range", "content-length"];
+                        if multipart {
+                            own.push("content-type");
+                        }
+                        let mut supplied: Vec<&(String, Vec<u8>)> = if want_ent { hs.iter().collect() } else { vec![] };
+                        for (n, v) in &o1.raw_headers {
+                            if own.contains(&n.as_str()) {
+                                continue;
+                            }
+                            match supplied.iter().position(|(k, w)| k == n && w == v) {
+                                Some(i) => {
+                                    supplied.remove(i);
+                                }
+                                None => fail(format!("header line {}: {} is not one this entity supplies", n, hex(v))),
+                            }
                         }
                     }
                     if let (Plan::Multipart(phs, ..), None) = (&o1.plan, &q1.if_range) {
